@@ -4,6 +4,8 @@
 (* sequence (program) of up to MaxLen chunks built from                        *)
 (*   layer, cel(l), slice, tags(1), tags(2), legacy palette, new palette,      *)
 (*   ignorable, user data                                                      *)
+(* spread over up to two frames (the context lives across the frame boundary;  *)
+(* a tags chunk outside frame 0 is ignored, so tags are offered in frame 0),   *)
 (* that satisfies the side conditions of C10 (the enabling conditions of the   *)
 (* UserData action, stated on the history `syms`, not on the machine state).   *)
 (* The machine state `ps` is advanced by AseLoad!ApplyChunk, one action per    *)
@@ -14,7 +16,8 @@ CONSTANT MaxLen
 VARIABLES syms, ps
 vars == <<syms, ps>>
 
-Hdr == [nframes |-> 1, w |-> 1, h |-> 1, depth |-> 32, tidx |-> 0, pixw |-> 1, pixh |-> 1, speed |-> 100, magic |-> 42464]
+NF == 2
+Hdr == [nframes |-> NF, w |-> 1, h |-> 1, depth |-> 32, tidx |-> 0, pixw |-> 1, pixh |-> 1, speed |-> 100, magic |-> 42464]
 
 \* user data records: text-only, colour-only, both, and EMPTY records (no flag set) rotate by position;
 \* the non-empty ones are distinct per position
@@ -36,11 +39,13 @@ ChunkOf(sym, pos) ==
 
 \* ---- declarative statement of C10, from the history alone ----
 Attachable == {"layer", "cel", "slice", "tags", "oldpal"}
+\* the frame a position lies in: the number of frame boundaries before it
+FrameOf(s, j) == Cardinality({k \in 1..(j - 1) : s[k][1] = "frame"})
 NumBefore(i, kind) == Cardinality({j \in 1..(i - 1) : syms[j][1] = kind})
 \* the entity a chunk at position j denotes
 EntityAt(s, j) ==
   CASE s[j][1] = "layer" -> <<"layer", Cardinality({k \in 1..(j - 1) : s[k][1] = "layer"})>>
-    [] s[j][1] = "cel" -> <<"cel", s[j][2]>>
+    [] s[j][1] = "cel" -> <<"cel", FrameOf(s, j), s[j][2]>>
     [] s[j][1] = "slice" -> <<"slice", Cardinality({k \in 1..(j - 1) : s[k][1] = "slice"})>>
     [] s[j][1] = "oldpal" -> <<"sprite">>
     [] s[j][1] = "tags" -> <<"tags", s[j][2]>>
@@ -55,7 +60,8 @@ UdPositions(s) == {i \in 1..Len(s) : s[i][1] = "ud"}
 
 \* ---- environment: which chunk may come next (side conditions of C10) ----
 NLayers == Cardinality({j \in 1..Len(syms) : syms[j][1] = "layer"})
-CelLayers == {syms[j][2] : j \in {k \in 1..Len(syms) : syms[k][1] = "cel"}}
+CurFrame == FrameOf(syms, Len(syms) + 1)
+CelLayers == {syms[j][2] : j \in {k \in 1..Len(syms) : syms[k][1] = "cel" /\ FrameOf(syms, k) = CurFrame}}
 HasTags == \E j \in 1..Len(syms) : syms[j][1] = "tags"
 UdAllowed ==
   LET i == Len(syms) + 1
@@ -67,24 +73,26 @@ UdAllowed ==
 Candidates ==
   {<<"layer">>, <<"slice">>, <<"oldpal">>, <<"newpal">>, <<"ign">>}
   \cup {<<"cel", l>> : l \in (0..(NLayers - 1)) \ CelLayers}
-  \cup (IF HasTags THEN {} ELSE {<<"tags", 1>>, <<"tags", 2>>})
+  \cup (IF HasTags \/ CurFrame # 0 THEN {} ELSE {<<"tags", 1>>, <<"tags", 2>>})
+  \cup (IF CurFrame < NF - 1 THEN {<<"frame">>} ELSE {})
   \cup (IF UdAllowed THEN {<<"ud">>} ELSE {})
 
 Init == syms = <<>> /\ ps = BeginFrame(InitPS(Hdr), 0, 100, 61946)
 Next == /\ Len(syms) < MaxLen
         /\ \E sym \in Candidates :
              /\ syms' = Append(syms, sym)
-             /\ ps' = ApplyChunk(ps, ChunkOf(sym, Len(syms) + 1))
+             /\ ps' = IF sym[1] = "frame" THEN BeginFrame(ps, CurFrame + 1, 100 + CurFrame + 1, 61946)
+                      ELSE ApplyChunk(ps, ChunkOf(sym, Len(syms) + 1))
 Spec == Init /\ [][Next]_vars
 
 \* ---- what the machine did: the record each entity holds ----
 Entities ==
-  {<<"layer", k - 1>> : k \in DOMAIN ps.layers} \cup {<<"cel", ps.cels[k].l>> : k \in DOMAIN ps.cels}
+  {<<"layer", k - 1>> : k \in DOMAIN ps.layers} \cup {<<"cel", ps.cels[k].f, ps.cels[k].l>> : k \in DOMAIN ps.cels}
   \cup {<<"slice", k - 1>> : k \in DOMAIN ps.slices}
   \cup (IF IsSome(ps.tags) THEN {<<"tag", k - 1>> : k \in DOMAIN ps.tags[1]} ELSE {}) \cup {<<"sprite">>}
 RecordOf(e) ==
   CASE e[1] = "layer" -> ps.layers[e[2] + 1].ud
-    [] e[1] = "cel" -> ps.cels[CelIdx(ps.cels, 0, e[2])].ud
+    [] e[1] = "cel" -> ps.cels[CelIdx(ps.cels, e[2], e[3])].ud
     [] e[1] = "slice" -> ps.slices[e[2] + 1].ud
     [] e[1] = "tag" -> ps.tags[1][e[2] + 1].ud
     [] e[1] = "sprite" -> ps.spriteUD
@@ -98,7 +106,9 @@ UDOwnerInv == \A e \in Entities : RecordOf(e) = Expected(e)
 \* every owner named by the history exists as an entity
 NoStrayInv == \A i \in UdPositions(syms) : Owner(syms, i) \in Entities
 \* no well-formed program of this family is refused
-AcceptedInv == ~Stopped(ps) /\ Outcome(Validate(ps)) = "ok"
+\* (a program that has not reached its last frame yet is completed by empty frames, as the export does)
+Fin == IF CurFrame = NF - 1 THEN ps ELSE BeginFrame(ps, NF - 1, 100 + NF - 1, 61946)
+AcceptedInv == ~Stopped(ps) /\ ~Stopped(Fin) /\ Outcome(Validate(Fin)) = "ok"
 \* ignorable chunks (and the neutral colour profile / new palette context-wise) are stuttering steps
 IgnoredStutterInv ==
   /\ \A k \in IgnorableKinds : ApplyChunk(ps, [k |-> k]) = ps
